@@ -31,16 +31,39 @@ def vo_fresh(vfile):
     return os.path.exists(vo) and os.path.getmtime(vo) >= os.path.getmtime(v)
 
 def run_cases(P, cases, builds, want_model=True, envs=None):
-    """returns dict name -> rows; 'model' -> rows"""
+    """returns dict name -> rows; 'model' -> rows.  Cases carrying cpu=<sse2|none> are run in a
+    separate process with MEMCHR_VERIF_CPU set, so that the real dispatcher takes that branch."""
+    import re
     os.makedirs(vlib.CASES, exist_ok=True)
     out = {}
     path = os.path.join(vlib.CASES, f"{P['id']}.{os.getpid()}.cases")
     vlib.write_cases(path, cases)
+    groups = {}
+    for i, line in enumerate(cases):
+        m = re.search(r"\bcpu=(\w+)", line)
+        key = m.group(1) if m and m.group(1) in ("sse2", "none") else "host"
+        groups.setdefault(key, []).append(i)
     try:
         if want_model:
             out["model"] = vlib.run_model(path)
         for name, exe, env in builds:
-            out[name] = vlib.run_lines(exe, path, env=env)
+            if list(groups) == ["host"]:
+                out[name] = vlib.run_lines(exe, path, env=env)
+                continue
+            rows = [("MISSING", "-")] * len(cases)
+            for key, idxs in groups.items():
+                gp = path + "." + key
+                vlib.write_cases(gp, [cases[i] for i in idxs])
+                e2 = dict(env or {})
+                if key != "host":
+                    e2["MEMCHR_VERIF_CPU"] = key
+                try:
+                    r = vlib.run_lines(exe, gp, env=e2)
+                finally:
+                    os.remove(gp)
+                for j, i in enumerate(idxs):
+                    rows[i] = r[j]
+            out[name] = rows
     finally:
         try:
             os.remove(path)
